@@ -568,9 +568,10 @@ def c04_reset(ctx):
         ctx.check(ok, st[0] if st else rrt, "self.%s reset to %r on every normal path of _reset_run_tracking" % (name, val),
                   "self.%s is not reset to %r by _reset_run_tracking" % (name, val),
                   key=None if st else PAR + "::Parallel._reset_run_tracking::reset of self." + name)
-    first = call.body[0] if not (isinstance(call.body[0], ast.Expr) and isinstance(call.body[0].value, ast.Constant)) else call.body[1]
-    ctx.check(isinstance(first, ast.Expr) and isinstance(first.value, ast.Call) and call_name(first.value) == "self._reset_run_tracking", first,
-              "__call__ starts with _reset_run_tracking()")
+    rc = [c for c in calls_in(call) if call_name(c) == "self._reset_run_tracking"]
+    ctx.check(bool(rc) and gcall.every_path_to(gcall.nodes_of_all(go_calls), gcall.nodes_of_all(rc)), rc[0] if rc else call,
+              "every call resets the run tracking before dispatching starts", "__call__ can start dispatching without _reset_run_tracking()",
+              key=None if rc else PAR + "::Parallel.__call__::_reset_run_tracking call")
     # _pickle_cache style: attributes created per call are fine; iterating flag
     it = assigns_to(F(ctx, "Parallel._start"), "self._iterating")
     ctx.check(bool(it), it[0] if it else call, "_iterating is initialised by _start on every call")
@@ -1413,8 +1414,11 @@ def c16_running(ctx):
               "test and set of _running happen in one `with lock` block (atomic)", "test and set of _running are not in one locked block")
     ctx.check(g.every_path_to(g.nodes_of(s), g.nodes_of(t)), s, "the set is dominated by the test")
     call = F(ctx, "Parallel.__call__")
-    first = [st for st in call.body if not (isinstance(st, ast.Expr) and isinstance(st.value, ast.Constant))][0]
-    ctx.check(isinstance(first, ast.Expr) and isinstance(first.value, ast.Call) and call_name(first.value) == "self._reset_run_tracking", first, "it is the first thing __call__ does")
+    gc_ = cfg_of(call)
+    rc = [c for c in calls_in(call) if call_name(c) == "self._reset_run_tracking"]
+    others = [c for c in calls_in(call) if c not in rc and enclosing_stmt(c) is not (enclosing_stmt(rc[0]) if rc else None)]
+    ctx.check(bool(rc) and gc_.every_path_to(gc_.nodes_of_all(others), gc_.nodes_of_all(rc)), rc[0] if rc else call, "the running test-and-set precedes everything else __call__ does",
+              "__call__ does work before (or without) the running test-and-set", key=None if rc else PAR + "::Parallel.__call__::_reset_run_tracking call")
     for q in ("Parallel._get_outputs", "Parallel._get_sequential_output"):
         fn = F(ctx, q)
         tr = _final_try(fn)
@@ -1422,6 +1426,17 @@ def c16_running(ctx):
         cl = [a for a in tr.finalbody if isinstance(a, ast.Assign) and "self._running" in stores_to(a) and is_const(a.value, False)]
         ctx.check(bool(cl), cl[0] if cl else tr, "%s clears _running in finally (normal end, error, generator close)" % q,
                   "%s does not clear _running in finally" % q, key=None if cl else "%s::%s::finally clears _running" % (PAR, q))
+    # who may clear the flag: only the end of a run
+    n_clear = 0
+    for fn in _par_methods(ctx):
+        for a in nodes_of_type(fn, ast.Assign):
+            if any(_state_attr(t_) == "_running" for t_ in stores_to(a)) and not is_const(a.value, True):
+                n_clear += 1
+                tr_ = _final_try(fn) if fn._qualname in ("Parallel._get_outputs", "Parallel._get_sequential_output") else None
+                ok = fn._qualname == "Parallel.__init__" or (tr_ is not None and a in tr_.finalbody)
+                ctx.check(ok, a, "_running is cleared at the end of a run (%s)" % fn._qualname,
+                          "_running is cleared in %s, outside the end-of-run finally: a rejected overlapping call (or a failed set-up) wipes the flag of the live run" % fn._qualname)
+    ctx.floor(n_clear, 2, "sites clearing _running")
 
 
 def c16_genexit(ctx):
